@@ -1044,7 +1044,247 @@ def split_check(ctx, binary, profile, mods_items, only=None):
     return n
 
 
+# ---- scale: failed runs / resets whose clean-up has to walk MANY fibers / frames / open upvalues / handlers / modules (round 8) ----
+# Every other family builds a handful of waiting fibers, handlers, frames or modules before the failure, so a clean-up loop that is
+# bounded by a constant or stops early (first 64 fibers, first N upvalues / handlers / modules) behaves as the full loop on all of them.
+# Here every shape is a function of a size n, taken at 2, around the VM's limits (FRAMES_MAX = 64: 63 64 65 66; 250 locals) and far
+# beyond (130).  Two oracles, on the implementation alone:
+#  (1) [setup(n), run that FAILS, probes] == [setup(n), the same run completing normally, probes] on the probes (the failing snippet
+#      matters only through its completed definitions: the same fibers are over, the same closures hold the same values, the same
+#      modules are absent); for RESET: [definitions at scale, RESET, probes] == [RESET, probes] on a new interpreter, modules and chunks
+#      of the H5 record included;
+#  (2) scale independence: the probes print only size-independent summaries (differences from the expected counts), so the probe
+#      records at size n must equal those at the smallest size (which the model and the other families tie to the Spec).
+SCALE_FAILS = {"throw": "throw \"boom\";", "builtin": "nil.foo;", "import": "import \"bad\" as mb;", "overflow": "over(0);",
+               "undeclared": "total = 41;", "class": "#[derive(Shape)] class Circle {}"}
+SCALE_OVER = "fn over(k) { return over(k + 1) + 1; }"
+CLS_PROBE = "var wrong = 0; for i in 0..cls.len() { if cls[i]()[0] != i * 10 { wrong = wrong + 1; } } print(wrong); print(cls.len() - want);"
+AFTER_PROBE = ("try { print(\"t\"); } finally { print(\"f\"); } print(Fiber.new(|| { return 5; }).call()); var c2 = nil; "
+               "(|| { var x = 5; c2 = || x; })(); print(c2()); try { try { throw 5; } finally { print(\"i\"); } } catch e { print(e); } print(\"after\");")
+
+
+def sc_chain(n, kind, where):
+    """n fibers waiting in the caller chain (each: 2 frames, a try/finally handler, an open upvalue) + the innermost one, which fails.
+    where = fresh: the chain is built by the failing run; parked: every fiber was started and parked by an EARLIER snippet"""
+    parked = where == "parked"
+    setup = ("var fibers = []; var cls = []; var want = %d; var done = 0; %s fn step(i, n) { if i < n { return fibers[i + 1].call(); } return -1; } "
+             "fn make(i, n, boom) { return Fiber.new(|| { var x = [i * 10, \"v\"]; cls.push(|| x); %stry { if i < n { step(i, n); } else { if boom { %s } } } "
+             "finally { done = done + 1; } return i; }); }" % (n + 1, SCALE_OVER, "Fiber.yield(i); " if parked else "", SCALE_FAILS[kind]))
+    build = "for i in 0..%d { fibers.push(make(i, %d, %%s)); }" % (n + 1, n) + (" for f in fibers { f.call(); }" if parked else "")
+    run = "fibers[0].call();"
+    probes = ["var fin = 0; var firstlive = -1; for i in 0..fibers.len() { if fibers[i].has_finished() { fin = fin + 1; } else { if firstlive < 0 { firstlive = i; } } } "
+              "print(fibers.len() - fin); print(firstlive); print(fibers.len() - want);", CLS_PROBE,
+              "fibers[0].call();", "fibers[1].call();", "fibers[(fibers.len() - fibers.len() % 2) / 2].call();", "fibers[fibers.len() - 2].call();", "fibers[fibers.len() - 1].call();",
+              "var again = []; fn mk2(i) { return Fiber.new(|| { var y = i; try { if i + 1 < again.len() { again[i + 1].call(); } } finally { y = y + 1; } return y - i; }); } "
+              "for i in 0..fibers.len() { again.push(mk2(i)); } print(again[0].call()); var live = 0; for f in again { if !f.has_finished() { live = live + 1; } } print(live);",
+              AFTER_PROBE]
+    return {"a": [setup, build % "true", run] + probes, "b": [setup, build % "false", run] + probes, "k": 2, "np": len(probes)}
+
+
+def sc_frames(n, kind, where):
+    """n nested calls, each frame with a captured local (an open upvalue) and a try/finally; the deepest one fails.
+    where: top / fiber (the calls run in a fiber) / caller (the deepest frame calls a fiber that fails: n frames of a WAITING fiber)"""
+    fail = SCALE_FAILS[kind] if where != "caller" else "Fiber.new(|| { %s }).call();" % SCALE_FAILS[kind]
+    setup = ("var cls = []; var want = %d; var done = 0; %s fn rec(i, n, boom) { var x = [i * 10, \"v\"]; cls.push(|| x); "
+             "try { if i + 1 < n { rec(i + 1, n, boom); } else { if boom { %s } } } finally { done = done + 1; } return i; }" % (n, SCALE_OVER, fail))
+    run = ("rec(0, %d, %%s);" if where != "fiber" else "Fiber.new(|| { rec(0, %d, %%s); }).call();") % n
+    probes = [CLS_PROBE, "cls = []; " + (run % "false") + " " + CLS_PROBE, AFTER_PROBE]
+    return {"a": [setup, run % "true"] + probes, "b": [setup, run % "false"] + probes, "k": 1, "np": len(probes)}
+
+
+def sc_locals(n, kind, where):
+    """ONE frame with n captured locals (n open upvalues of one frame) that fails"""
+    fail = SCALE_FAILS[kind] if where != "caller" else "Fiber.new(|| { %s }).call();" % SCALE_FAILS[kind]
+    body = " ".join("var a%d = [%d, \"v\"]; cls.push(|| a%d);" % (i, i * 10, i) for i in range(n))
+    setup = "var cls = []; var want = %d; %s fn wide(boom) { %s if boom { %s } return 0; }" % (n, SCALE_OVER, body, fail)
+    run = "wide(%s);" if where != "fiber" else "Fiber.new(|| { wide(%s); }).call();"
+    probes = [CLS_PROBE, "cls = []; " + (run % "false") + " " + CLS_PROBE, AFTER_PROBE]
+    return {"a": [setup, run % "true"] + probes, "b": [setup, run % "false"] + probes, "k": 1, "np": len(probes)}
+
+
+def sc_handlers(n, kind, where):
+    """n nested try blocks (finally-only, every third one catches and rethrows) around the failing statement.
+    where = callee: in a fiber whose caller fiber waits inside a try/finally of its own; caller: the n handlers belong to a WAITING
+    fiber (the statement inside them calls a fiber that fails), they are never run and stay with the dead fiber"""
+    fail = SCALE_FAILS[kind] if where != "caller" else "Fiber.new(|| { %s }).call();" % SCALE_FAILS[kind]
+    inner = "if boom { %s }" % fail
+    for i in range(n):
+        inner = ("try { %s } catch e { h = h + 1; throw e; }" if i % 3 == 2 else "try { %s } finally { h = h + 1; }") % inner
+    nfin = len([i for i in range(n) if i % 3 != 2])
+    setup = "var h = 0; %s fn deep(boom) { %s return 1; }" % (SCALE_OVER, inner)
+    run = {"top": "deep(%s);", "fiber": "Fiber.new(|| { deep(%s); }).call();", "caller": "Fiber.new(|| { deep(%s); }).call();",
+           "callee": "Fiber.new(|| { try { Fiber.new(|| { deep(%s); }).call(); } finally { h = h + 1000; } }).call();"}[where]
+    probes = ["h = 0; " + (run % "false") + " print(h %% 1000 - %d);" % nfin, AFTER_PROBE]
+    return {"a": [setup, run % "true"] + probes, "b": [setup, run % "false"] + probes, "k": 1, "np": len(probes)}
+
+
+def sc_modules(n, kind, where):
+    """n + 1 modules in the middle of their import when the innermost body fails (kind throw / builtin: not ready; cycle: it imports the
+    outermost again).  where = direct: nested imports (frames); fiber: every body imports the next one inside a fiber (the loading
+    modules are spread over a chain of n waiting fibers); wide: n imports that failed and were CAUGHT + one uncaught (n + 1 stale entries)"""
+    tag = "%s%d%s" % (where[0], n, kind[0])
+    flag, nm = "sf" + tag, lambda k: "sm%s_%d" % (tag, k)
+    mods = {flag: "var ready = false;\nvar count = 0;\n"}
+    inner_fail = {"throw": "throw \"not ready\";", "builtin": "nil.foo;", "cycle": "import \"%s\" as again;" % nm(0)}[kind]
+    head = "import \"%s\" as flag;\nflag.count = flag.count + 1;\n" % flag
+    if where == "wide":
+        for k in range(n + 1):
+            mods[nm(k)] = head + "if !flag.ready { %s }\nvar v = %d;\n" % (inner_fail if kind != "cycle" else "throw 3;", k)
+        fail = " ".join("try { import \"%s\" as w%d; } catch e { }" % (nm(k), k) for k in range(n)) + " import \"%s\" as wl;" % nm(n)
+        probes = ["var sum = 0; " + " ".join("import \"%s\" as w%d; sum = sum + w%d.v;" % (nm(k), k, k) for k in range(n + 1)) +
+                  " print(sum - %d); print(flag.count - %d);" % (n * (n + 1) // 2, n + 1),
+                  "import \"%s\" as again0; print(again0 == w0); import \"%s\" as againl; print(againl == w%d); print(flag.count - %d);" % (nm(0), nm(n), n, n + 1)]
+    else:
+        for k in range(n):
+            imp = "import \"%s\" as nx;\n" % nm(k + 1) if where == "direct" else "var nx = Fiber.new(|| { import \"%s\" as m; return m; }).call();\n" % nm(k + 1)
+            mods[nm(k)] = head + imp + "var v = nx.v + 1;\n"
+        mods[nm(n)] = head + "if !flag.ready { %s }\nvar v = 0;\n" % inner_fail
+        fail = "import \"%s\" as c0;" % nm(0)
+        probes = ["import \"%s\" as c; print(c.v - %d); print(flag.count - %d);" % (nm(0), n, n + 1),
+                  "import \"%s\" as c2; print(c2 == c); import \"%s\" as last; print(last.v); print(c.nx.v - c.v); print(flag.count - %d);" % (nm(0), nm(n), n + 1)]
+    probes += ["import \"good\" as mg2; print(mg2.v);", AFTER_PROBE]
+    first = "import \"%s\" as flag;" % flag
+    ready = "flag.ready = true; flag.count = 0;"
+    return {"a": [first, fail, ready] + probes, "b": [first, ready] + probes, "k": 1, "np": len(probes), "mods": mods}
+
+
+def sc_reset(n, kind, where):
+    """RESET after n definitions of every kind (+ a failed run at scale): vs RESET on a new interpreter, names, modules, chunks"""
+    mods = {"sr%d_%d" % (n, k): "var v = %d;\n" % k for k in range(n)}
+    pre = [" ".join("var g%d = %d; fn f%d() { return g%d; } class K%d {} import \"sr%d_%d\" as m%d;" % (k, k, k, k, k, n, k, k) for k in range(n))]
+    if kind != "none":
+        c = sc_chain(n, kind, where)
+        pre += c["a"][:3]
+    names = ["g%d" % k for k in range(n)] + ["f%d" % k for k in range(n)] + ["K%d" % k for k in range(n)] + ["m%d" % k for k in range(n)] + ["fibers", "cls", "make", "print", "Fiber"]
+    probes = ["NAMES:" + ",".join(hx(x) for x in names), "print(g0);", "print(f%d());" % (n - 1), "print(K%d);" % (n // 2),
+              "import \"sr%d_%d\" as again; print(again.v);" % (n, n - 1), "print(fibers);", AFTER_PROBE]
+    return {"a": pre + ["RESET"] + probes, "b": ["RESET"] + probes, "k": None, "np": len(probes), "mods": mods, "cs": True}
+
+
+# family -> (constructor, kinds, places, sizes).  Sizes: 2, the frame limit 64 and its neighbours, far beyond; for frames the
+# deepest recursion that fits (63 calls at top level, 62 in a fiber) and one less; 250 = just under the limit of locals per function
+SCALE_FAMILIES = {
+    "waiting_fibers": (sc_chain, ["throw", "builtin", "import", "overflow", "undeclared", "class"], ["fresh", "parked"], [2, 63, 64, 65, 66, 130]),
+    "frames": (sc_frames, ["throw", "builtin", "overflow", "undeclared"], ["top", "fiber", "caller"], [2, 31, 61, 62, 63]),
+    "open_upvalues_one_frame": (sc_locals, ["throw", "builtin", "overflow"], ["top", "fiber", "caller"], [2, 63, 64, 65, 66, 130, 250]),
+    "handlers": (sc_handlers, ["throw", "builtin", "overflow", "import"], ["top", "caller", "fiber", "callee"], [2, 63, 64, 65, 66, 130]),
+    "modules_mid_import": (sc_modules, ["throw", "builtin", "cycle"], ["fiber", "direct", "wide"], [2, 30, 63, 64, 65, 66, 130]),
+    "reset": (sc_reset, ["none", "throw", "builtin"], ["fresh", "parked"], [2, 63, 64, 65, 66, 130]),
+}
+
+
+def scale_cases(quick, rot):
+    res = []
+    for fam, (fn, kinds, places, sizes) in SCALE_FAMILIES.items():
+        combos = [(k, p) for k in kinds for p in places]
+        if quick:
+            # the first (kind, place) + two more that rotate with the seed
+            combos = [combos[0]] + [combos[1 + (rot + j * 5) % (len(combos) - 1)] for j in range(2)]
+        for kind, place in dict.fromkeys(combos):
+            for n in sizes:
+                if fam == "frames" and n > (63 if place == "top" else 62):
+                    continue
+                if fam == "modules_mid_import" and place == "direct" and n > 30:
+                    continue
+                c = fn(n, kind, place)
+                c.update(label="%s/%s/%s/n=%d" % (fam, kind, place, n), group=(fam, kind, place), n=n)
+                res.append(c)
+    return res
+
+
+def scale_items(binary, hist, mods_items, mods):
+    xm = mods_items + "".join(" %s=%s" % (hx(n), hx(s)) for n, s in (mods or {}).items())
+    return "replmods - %s %s" % (xm, " ".join(x if x in ("RESET", "FRESH") or x.startswith("NAMES:") else hx(x) for x in hist))
+
+
+def scale_obs(r, cs):
+    s = strip_loads([fmt_full(r)])[0]
+    if "names" in r:
+        s += ";names=" + ",".join(k for k, v in sorted(r["names"].items()) if v == "1")
+    if cs:
+        d = dict(kv.split("=") for kv in (r["cs"] or "").split(" ") if "=" in kv)
+        s += ";modules=%s;chunks_over_core=%s" % (d.get("modules"), int(d.get("chunks", 0)) - int(d.get("core_chunks", 0)) if d else None)
+    return s
+
+
+def scale_check(ctx, binary, profile, mods_items, only=None):
+    """returns (histories run, cases whose failing run failed as intended)"""
+    if only is not None:
+        pairs = [dict(only, label="replay")]   # keeps a / b / k / np / mods / why
+    else:
+        quick = ctx.quick() if hasattr(ctx, "quick") else True
+        cases = scale_cases(quick, ctx.rng.randrange(1000) if hasattr(ctx, "rng") else 0)
+        pairs = [dict(c, why="completed") for c in cases]
+        smallest = {}
+        for c in cases:
+            if c["group"] not in smallest or c["n"] < smallest[c["group"]]["n"]:
+                smallest[c["group"]] = c
+        for c in cases:
+            s = smallest[c["group"]]
+            if s is not c and not c.get("cs"):
+                pairs.append({"label": c["label"] + " vs n=%d" % s["n"], "a": c["a"], "b": s["a"], "k": c["k"], "np": c["np"], "mods": c.get("mods"),
+                              "mods_b": s.get("mods"), "why": "scale"})
+    lines = {}
+    for p in pairs:
+        for h, m in ((p["a"], p.get("mods")), (p["b"], p.get("mods_b", p.get("mods")))):
+            lines.setdefault(scale_items(binary, h, mods_items, m), None)
+    keys = list(lines)
+    for k, rec in zip(keys, harness(binary, keys, case_timeout_ms=20000)):
+        lines[k] = impl_records(rec)
+    n = nfail = 0
+    bad = []
+    for p in pairs:
+        a = lines[scale_items(binary, p["a"], mods_items, p.get("mods"))]
+        b = lines[scale_items(binary, p["b"], mods_items, p.get("mods_b", p.get("mods")))]
+        n += 1
+        k, np_ = p["k"], p["np"]
+        if p.get("why") != "scale":
+            # the run that has to fail failed, the one that has to complete completed (else: a note, nothing to compare)
+            if k is not None and (len(a) <= k or not (a[k]["res"] or "").startswith("err")):
+                note = "scale family: %s did not fail on this tree" % p["label"]
+                if only is None and note not in ctx.notes:
+                    ctx.notes.append(note)
+                continue
+            if k is not None and p.get("why") == "completed" and (len(b) <= k or any(r["res"] != "ok" for r in b[:k + 1])):
+                note = "scale family: the reference of %s did not complete on this tree" % p["label"]
+                if only is None and note not in ctx.notes:
+                    ctx.notes.append(note)
+                continue
+        nfail += 1
+        got = [scale_obs(r, p.get("cs")) for r in a[len(p["a"]) - np_:]] if len(a) >= len(p["a"]) - np_ else []
+        want = [scale_obs(r, p.get("cs")) for r in b[len(p["b"]) - np_:]]
+        if p.get("why") == "scale" and k is not None:
+            # the failing run itself ends the same way at every size (names / sizes inside the message aside)
+            import re
+            how = lambda l: re.sub(r"[0-9]+", "#", "%s:%s" % (l[k]["res"], unmsg(l[k]["msgs"][0]) if l[k]["msgs"] else "")) if len(l) > k else "no record (crash or time-out)"
+            if how(a) != how(b):
+                bad.append((True, p.get("n", 0), dict(
+                    what="a run that fails at the smallest size ends differently at a larger size (%s) [%s build]" % (p["label"], profile),
+                    input=p["a"][:k + 1] if len(str(p["a"][:k + 1])) < 6000 else "(see the replay file)", profile=profile, expected=how(b), actual=how(a),
+                    raw_scale={"a": p["a"], "b": p["b"], "k": k, "np": np_, "mods": p.get("mods"), "mods_b": p.get("mods_b", p.get("mods")), "cs": False, "why": "scale"})))
+                continue
+        if got != want or len(want) != np_:
+            first = next((i for i in range(min(len(got), len(want))) if got[i] != want[i]), min(len(got), len(want)))
+            what = {"completed": "after a run that failed with MANY fibers / frames / open upvalues / handlers / modules to clean up (%s) later snippets behave differently than after the same run completing normally [%s build]",
+                    "scale": "a failed run behaves differently at a larger size than at the smallest one (%s): its clean-up stops early [%s build]"}.get(p.get("why"), "replayed scale history (%s) [%s build]")
+            if p.get("cs"):
+                what = "after RESET following definitions at scale (%s) the interpreter differs from a new one that was reset [%s build]"
+            dec = lambda l: [readable(x.split(";msgs=")[0]) + (";" + x.split(";", 4)[-1] if ";names=" in x or ";modules=" in x else "") for x in l]
+            msgs = lambda l: [[unmsg(m) for m in x.split(";msgs=")[1].split(";")[0].split(",") if m] for x in l]
+            bad.append((p.get("why") != "completed", p.get("n", 0), dict(
+                what=what % (p["label"], profile), input=p["a"][:len(p["a"]) - np_ + first + 1] if len(str(p["a"])) < 6000 else "(see the replay file)",
+                first_differing_probe=(p["a"][len(p["a"]) - np_:] + [None])[first],
+                raw_scale={"a": p["a"], "b": p["b"], "k": k, "np": np_, "mods": p.get("mods"), "mods_b": p.get("mods_b", p.get("mods")), "cs": p.get("cs", False), "why": p.get("why")},
+                profile=profile, expected=dec(want), actual=dec(got), expected_messages=msgs(want), actual_messages=msgs(got))))
+    # smallest failing size first, the "completed definitions" oracle before the scale-independence one
+    bad.sort(key=lambda t: (t[0], t[1]))
+    for _, _, v in bad[:6]:
+        ctx.violation(v.pop("what"), **v)
+    return len(keys), nfail
+
+
 DIRTY_STATS = {}
+SCALE_STATS = {}
 
 
 def directed_families(ctx, bins, mods_items):
@@ -1063,6 +1303,10 @@ def directed_families(ctx, bins, mods_items):
         n += a
         DIRTY_STATS[profile] = {"histories": a, "prefix_ended_ok": b, "distinct_prefixes_leaving_flag_set": c}
         n += 2 * split_check(ctx, binary, profile, mods_items)
+        a, b = scale_check(ctx, binary, profile, mods_items)
+        phase("  scale (%s)" % profile)
+        n += a
+        SCALE_STATS[profile] = {"histories": a, "pairs_compared": b}
     return n, nf
 
 
@@ -1150,7 +1394,8 @@ def run(ctx):
                      only=ctx.replay_only["raw"])
         ctx.cov.update({"evaluations": 2, "distinct_nontrivial": 1, "rule": "replay of one raw side-effect history", "samples": [ctx.replay_only["raw"]]})
         return
-    for key, fn in (("raw_reset", reset_check), ("raw_modules", module_check), ("raw_dirty", dirty_ok_check), ("raw_split", split_check)):
+    for key, fn in (("raw_reset", reset_check), ("raw_modules", module_check), ("raw_dirty", dirty_ok_check), ("raw_split", split_check),
+                    ("raw_scale", scale_check)):
         if ctx.replay_only and key in ctx.replay_only:
             mods_items = " ".join("%s=%s" % (hx(n), hx(s)) for n, s in zip(["good", "bad", "syn", "nest"], MOD_SRC))
             load_msg_table()
@@ -1300,6 +1545,7 @@ def run(ctx):
         "residue_failing_kinds": [c[0] for c in RESIDUE_FAILS], "residue_probes": [c[0] for c in RESIDUE_PROBES],
         "ok_runs_leaving_state": dict(DIRTY_STATS), "ok_runs_leaving_state_kinds": [c[0] for c in DIRTY_FLAG_CORES] + [c[0] for c in DIRTY_OTHER],
         "ok_runs_leaving_state_probes": [c[0] for c in RESIDUE_PROBES + DIRTY_PROBES], "split_cases": [c[0] for c in SPLIT_CASES],
+        "scale_families": {k: {"kinds": v[1], "places": v[2], "sizes": v[3]} for k, v in SCALE_FAMILIES.items()}, "scale_runs": dict(SCALE_STATS),
         "distinct_nontrivial": len(nontriv),
         "rule": "histories of <= 9 snippets of the mini-language ReplLang.v (definitions, uses, compile errors, uncaught errors from 18 places, "
                 "try/finally and fibers that complete, imports of a good/throwing/missing/uncompilable/nested module, RESET): every "
